@@ -151,6 +151,17 @@ def run_benign(verbose=True, only=None, shard=None):
         items = json.load(f)
     pids = sorted(f[:-3] for f in os.listdir(os.path.join(VERIF, "rules")) if f.startswith("C") and f.endswith(".py"))
     out = []
+    # behaviour-preserving refactorings written independently by sub-agents (benign_independent/*.diff, applied with patch -p1)
+    ind = os.path.join(VERIF, "benign_independent")
+    known = {}
+    if os.path.isdir(ind):
+        kp = os.path.join(ind, "KNOWN_LIMITS.json")
+        if os.path.exists(kp):
+            with open(kp) as f:
+                known = json.load(f)
+        for fn in sorted(os.listdir(ind)):
+            if fn.endswith(".diff"):
+                items.append({"name": "ind-" + fn[:-5], "patch": os.path.join(ind, fn), "known_limit": known.get(fn[:-5])})
     if shard:
         items = items[shard[0]::shard[1]]
     for m in items:
@@ -158,7 +169,13 @@ def run_benign(verbose=True, only=None, shard=None):
             continue
         d = make_scratch(extract.REPO)
         try:
-            if not apply_edits(d, m["edits"]):
+            if "patch" in m:
+                import subprocess
+                pr = subprocess.run(["patch", "-p1", "-s", "-i", m["patch"]], cwd=d, capture_output=True, text=True)
+                applied = pr.returncode == 0
+            else:
+                applied = apply_edits(d, m["edits"])
+            if not applied:
                 out.append({"benign": m["name"], "status": "skipped", "why": "edit no longer applies"})
                 continue
             try:
@@ -170,7 +187,10 @@ def run_benign(verbose=True, only=None, shard=None):
             _FACTS_CACHED[d] = True
             for pid in pids:
                 alarms += [f2.key() for f2 in run_rules(pid, d)]
-            out.append({"benign": m["name"], "status": "quiet" if not alarms else "FALSE-ALARM", "alarms": alarms[:8]})
+            st = "quiet" if not alarms else "FALSE-ALARM"
+            if alarms and m.get("known_limit"):
+                st = "known-limit"      # a documented limitation of the checker (DESIGN §10.3), listed in benign_independent/KNOWN_LIMITS.json
+            out.append({"benign": m["name"], "status": st, "alarms": alarms[:8]})
         finally:
             th = extract.tree_hash(d)
             shutil.rmtree(d, ignore_errors=True)
@@ -189,7 +209,7 @@ if __name__ == "__main__":
             sh = (int(a), int(b))
         res = run_benign(only=sys.argv[sys.argv.index("--only") + 1] if "--only" in sys.argv else None, shard=sh)
         bad = [r for r in res if r["status"] == "FALSE-ALARM"]
-        print("benign edits: %d quiet, %d false alarms, %d skipped" % (sum(r["status"] == "quiet" for r in res), len(bad), sum(r["status"] == "skipped" for r in res)))
+        print("benign edits: %d quiet, %d false alarms, %d skipped, %d known-limit" % (sum(r["status"] == "quiet" for r in res), len(bad), sum(r["status"] == "skipped" for r in res), sum(r["status"] == "known-limit" for r in res)))
         sys.exit(1 if bad else 0)
     args = [a for a in sys.argv[1:] if not a.startswith("--")]
     only = None
